@@ -121,3 +121,34 @@ Definition skel_of_prog (prog : list stmt) : sk :=
 
 (* the forest and symbol table js_parser builds, up to symbol numbering *)
 Definition parse_forest (prog : list stmt) : scope * symtab := build_sk (skel_of_prog prog).
+
+(* ---- how the parser binds the references: the environment (name -> symbol,
+   innermost first) at the scope of every reference, computed with the same
+   numbering as ScopeBuild.number_sk ---- *)
+Fixpoint psk_size (k : psk) : nat :=
+  match k with
+  | PSk fresh _ _ ch =>
+      (length fresh + (fix go (cs : list psk) : nat := match cs with [] => 0 | c :: r => psk_size c + go r end) ch)%nat
+  end.
+Fixpoint forest_size (cs : list psk) : nat :=
+  match cs with [] => 0%nat | c :: r => (psk_size c + forest_size r)%nat end.
+
+Fixpoint refs_of (env : env_t) (k : psk) (n : nat) : list (name * env_t) :=
+  match k with
+  | PSk fresh shared refs ch =>
+      let env' := combine (map fst fresh) (seq n (length fresh)) ++ env in
+      map (fun x => (x, env')) refs ++
+      (fix go (cs : list psk) (n : nat) : list (name * env_t) :=
+         match cs with
+         | [] => []
+         | c :: r => refs_of env' c n ++ go r (n + psk_size c)%nat
+         end) ch (n + length fresh)%nat
+  end.
+
+(* the module skeleton with its free names, still carrying the references *)
+Definition closed_psk (prog : list stmt) : psk :=
+  match module_psk prog with
+  | PSk fresh shared refs ch =>
+      PSk (fresh ++ map (fun x => (x, NsPinned)) (dedup (free_in [] (PSk fresh shared refs ch)))) shared refs ch
+  end.
+Definition parser_refs (prog : list stmt) : list (name * env_t) := refs_of [] (closed_psk prog) 0.
